@@ -30,30 +30,66 @@ GARG = z3.Function('GARG', z3.RealSort(), z3.RealSort())
 
 
 # -- (1) histories on one GHE object -----------------------------------------------------------------------------
+STS = z3.Function('STS', z3.RealSort(), z3.RealSort())      # short-time response as a function of the height it was built for
+TS = z3.Function('TS', z3.RealSort(), z3.RealSort())        # characteristic time t_s(H)
+GARG2 = z3.Function('GARG2', z3.RealSort(), z3.RealSort(), z3.RealSort())
+SIM7 = z3.Function('SIM7', z3.RealSort(), z3.IntSort(), z3.IntSort(), z3.RealSort(), z3.RealSort(), z3.RealSort(), z3.RealSort(), z3.RealSort())
+
+
+def _r(x):
+    return toreal(lift(x))
+
+
 def mk_ghe(e, tag):
+    """a GHE built by the real GHE.__init__ (so every attribute the class sets exists); the pipe model, the radial model and
+    the hybrid loads are recorders whose outputs are uninterpreted functions of the borehole height they were given"""
     import ghedesigner.ground_heat_exchangers as G
-    ghe = G.GHE.__new__(G.GHE)
-    ghe.nbh = 4
-    ghe.radial_numerical = NS(t_s=1.0e8, calc_sts_g_functions=lambda b: None)
-    ghe.bhe = NS(soil=NS(k=2.0, ugt=18.0), b=NS(H=100.0), calc_effective_borehole_resistance=lambda: 0.1, m_flow_borehole=0.3,
-                 fluid=NS(cp=4000.0), to_single=lambda: None)
-    ghe.B_spacing = 5.0
-    ghe.times = []
-    ghe.loading = None
-    ghe.hp_eft, ghe.dTb = [], []
-    ghe.sim_params = NS(start_month=1, end_month=24, max_EFT_allowable=35.0, min_EFT_allowable=5.0, max_height=135.0, min_height=60.0)
-    ghe.hourly_extraction_ground_loads = [0.0] * 8760
-    ghe.hybrid_load = NS(load=c09.VArr([0, 0, 1.5, -2.0, 0.5]), hour=c09.VArr([0, 0, 700.0, 1400.0, 17520.0]))
+    from ghedesigner.enums import BHPipeType
+    borehole = NS(H=100.0, r_b=0.075, D=2.0)
+
+    class EqTube:
+        def __init__(self, h):
+            self.b = NS(H=h, r_b=0.075)          # the equivalent tube carries a copy of the height at conversion time
+
+    class Bhe:
+        def __init__(self):
+            self.b = borehole
+            self.soil = NS(k=2.0, ugt=18.0)
+            self.fluid = NS(cp=4000.0, rho=998.0)
+            self.m_flow_borehole = 0.3
+            self.pipe, self.grout = NS(), NS()
+
+        def to_single(self):
+            return EqTube(self.b.H)
+
+        def calc_effective_borehole_resistance(self):
+            return 0.1
+
+    class Radial:
+        def __init__(self, eq):
+            self.sts = Sym(STS(_r(eq.b.H)))
+            self.t_s = Sym(TS(_r(eq.b.H)))
+
+        def calc_sts_g_functions(self, eq):
+            self.sts = Sym(STS(_r(eq.b.H)))
+            self.t_s = Sym(TS(_r(eq.b.H)))
+
+    shadow(G, 'get_bhe_object', lambda *a, **k: Bhe())
+    shadow(G, 'RadialNumericalBH', Radial)
+    shadow(G, 'HybridLoad', lambda *a, **k: NS(load=c09.VArr([0, 0, 1.5, -2.0, 0.5]), hour=c09.VArr([0, 0, 700.0, 1400.0, 17520.0])))
+    sp = NS(start_month=1, end_month=24, max_EFT_allowable=35.0, min_EFT_allowable=5.0, max_height=135.0, min_height=60.0)
+    ghe = G.GHE(1.2, 5.0, BHPipeType.SINGLEUTUBE, NS(rho=998.0, cp=4000.0), borehole, NS(), NS(), NS(k=2.0, rhoCp=2.3e6, ugt=18.0),
+                NS(bore_locations=[(0, 0), (5, 0), (0, 5), (5, 5)]), sp, [0.0] * 8760)
 
     def grab(b_over_h):
-        return Sym(GARG(toreal(lift(b_over_h)))), None
+        return Sym(GARG2(_r(b_over_h), _r(ghe.radial_numerical.sts))), None
     ghe.grab_g_function = grab
 
     def detailed(q_dot, time_values, g):
         nq, nt = len(q_dot), len(time_values)
         t0 = time_values[0] if nt else 0
         t1 = time_values[nt - 1] if nt else 0
-        v = Sym(SIM(toreal(lift(ghe.bhe.b.H)), z3.IntVal(nq), z3.IntVal(nt), toreal(lift(t0)), toreal(lift(t1)), toreal(lift(g))))
+        v = Sym(SIM7(_r(ghe.bhe.b.H), z3.IntVal(nq), z3.IntVal(nt), _r(t0), _r(t1), _r(g), _r(ghe.radial_numerical.t_s)))
         return [v, v - 1], [0.0, 0.0]
     ghe._simulate_detailed = detailed
     return ghe
@@ -88,6 +124,60 @@ def ghe_history_fn(prefix_ops, final_op):
         rb = do_op(e, b, final_op, H)
         return conj([ra[0] == rb[0], ra[1] == rb[1], len(a.times) == len(b.times), len(a.hp_eft) == len(b.hp_eft)])
     return fn
+
+
+def ghe_history_replay(prefix_ops, final_op):
+    def replay(model, notes):
+        """native: a real GHE (pygfunction g-functions for three heights, real radial model, real hybrid loads) put through the
+        same history, against a fresh one; heights of the model mapped affinely from [20,400] into the stored range [60,135]"""
+        restore_shadows()
+        import math
+        import warnings
+        warnings.simplefilter('ignore')
+        from ghedesigner.borehole import GHEBorehole
+        from ghedesigner.enums import BHPipeType, TimestepType
+        from ghedesigner.gfunction import calc_g_func_for_multiple_lengths
+        from ghedesigner.ground_heat_exchangers import GHE
+        from ghedesigner.media import GHEFluid, Grout, Pipe, Soil
+        from ghedesigner.simulation import SimulationParameters
+        from ghedesigner.utilities import eskilson_log_times
+
+        def mp(h):
+            return 60.0 + (float(h) - 20.0) / 380.0 * 75.0
+
+        def mk():
+            pipe = Pipe(Pipe.place_pipes(0.0323, 0.0133, 1), 0.0108, 0.0133, 0.0323, 1e-6, 0.4, 1542000.0)
+            bh = GHEBorehole(100.0, 2.0, 0.075, 0.0, 0.0)
+            fluid, grout, soil = GHEFluid('Water', 0.0), Grout(1.0, 3901000.0), Soil(2.0, 2343493.0, 18.3)
+            coords = [(0.0, 0.0), (5.0, 0.0)]
+            gf = calc_g_func_for_multiple_lengths(5.0, [60.0, 97.5, 135.0], 0.075, 2.0, 0.2, BHPipeType.SINGLEUTUBE, eskilson_log_times(), coords, fluid, pipe, grout, soil)
+            sp = SimulationParameters(1, 12, 35, 5, 135, 60)
+            loads = [3000.0 * math.sin(h / 8760 * 2 * math.pi) + (4000.0 if h % 500 == 7 else 0) for h in range(8760)]
+            return GHE(0.4, 5.0, BHPipeType.SINGLEUTUBE, fluid, bh, pipe, grout, soil, gf, sp, loads)
+
+        def op(g, name, h):
+            if name == 'size':
+                g.size(TimestepType.HYBRID)
+                return None
+            g.bhe.b.H = h
+            return g.simulate(TimestepType.HYBRID if name == 'hybrid' else TimestepType.HOURLY)
+        a = mk()
+        for i, name in enumerate(prefix_ops):
+            try:
+                op(a, name, mp(model.get('h%d' % i, 100.0)))
+            except Exception:  # noqa: BLE001
+                pass
+        H = mp(model['H'])
+        try:
+            ra = op(a, final_op, H)
+        except Exception as ex:  # noqa: BLE001
+            ra = ('exception', type(ex).__name__)
+        try:
+            rb = op(mk(), final_op, H)
+        except Exception as ex:  # noqa: BLE001
+            rb = ('exception', type(ex).__name__)
+        return ra != rb, dict(history=list(prefix_ops), final=final_op, H=H, after_history=[str(x) for x in ra], fresh=[str(x) for x in rb])
+    return replay
 
 
 def ghe_setup():
@@ -367,7 +457,7 @@ def units(tier, seed):
     prefixes = [()] + [(o,) for o in ops] + ([(a, b) for a in ops for b in ops] if tier == 'thorough' else [('hybrid', 'size'), ('size', 'hourly'), ('hourly', 'hybrid')])
     for pre in prefixes:
         for fin in ('hybrid', 'hourly'):
-            us.append(Unit('ghe_%s_then_%s' % ('_'.join(pre) or 'nothing', fin), ghe_history_fn(pre, fin), None, ghe_setup, F1,
+            us.append(Unit('ghe_%s_then_%s' % ('_'.join(pre) or 'nothing', fin), ghe_history_fn(pre, fin), ghe_history_replay(pre, fin), ghe_setup, F1,
                            'earlier operations %s at symbolic heights in [20,400], then simulate(%s) at symbolic H; compared with a fresh object' % (list(pre), fin),
                            stubs=ST1))
     for n in ([2, 3] if tier == 'quick' else [2, 3, 5]):
